@@ -152,6 +152,18 @@ def run(ctx) -> None:
         ctx.evaluations += 1
         ctx.nontrivial.add((b["name"], json.dumps(acts, sort_keys=True)))
     ctx.sample({"base": jobs[0][0]["name"], "actions": meta[5][1], "variant_source": tasks[5]["src"][:300]})
+    # design level (TokensPreserved): in the character-level scanner model every variant has the token stream of
+    # its base (up to comments, positions, case) — a seeded sample of the variants without an include move
+    idx = [k for k, (b, acts) in enumerate(meta) if acts and not any(a["a"] == "inc" for a in acts) and len(tasks[k]["src"]) < 700]
+    import random as _r
+    _r.Random(ctx.seed).shuffle(idx)
+    idx = idx[: (1500 if q else 20000)]
+    trecs = [{"id": str(k), "base": list(meta[k][0]["norm"]), "var": list(tasks[k]["src"])} for k in idx]
+    trej, tst, tgen = tlc.judge_traces("TraceC16Tok", trecs, tag="c16.tok", nshards=16, heap="2g")
+    ctx.add_states(tst, tgen, "TraceC16Tok: Layout actions preserve the scanner model's token stream")
+    ctx.extra["tokens_preserved_model"] = {"variants": len(trecs), "rejected": len(trej)}
+    for rj in trej[:10]:
+        ctx.drift_note(f"model token stream differs for {meta[int(rj['id'])][1]}: {rj['clause']}")
     rejects, st, gen = tlc.judge_traces("TraceC16", recs, tag="c16.trace", nshards=16)
     ctx.add_states(st, gen, "TraceC16 comparing variants with their base")
     ctx.traces += len(recs)
